@@ -4,6 +4,6 @@ import "astzoo/zoo"
 
 func main() {
 	r, err := zoo.Everything(7)
-	println(r, err == nil, zoo.Late)
+	println(r, err == nil, zoo.Late, zoo.UseFloating())
 	println("END")
 }
